@@ -49,7 +49,7 @@ CALLBACKS = ["core_first", "core_mid", "core_last", "blk_first", "blk_para", "in
 def floors(tier):
     q = tier == "quick"
     f = {"crash_points.fresh": 5000 if q else 150000, "crash_points.sequence": 3000 if q else 100000, "raised_inside_library": 8000, "fault.silent_invocation": 300,
-         "fault.in_container": 300, "fault.in_skiptoken": 100, "reset_rules.paths": 2000, "hammer.sequences": 100, "reset_rules.nested": 500, "post_state_compared": 8000}
+         "fault.in_container": 300, "fault.in_skiptoken": 100, "reset_rules.paths": 2000, "hammer.sequences": 100, "reset_rules.nested": 500, "reset_rules.entry_with_empty_chain": 500, "post_state_compared": 8000}
     for c in CALLBACKS:
         f["cb." + c] = 50
     for e in EXC:
@@ -188,12 +188,12 @@ def crash(ctx, md, ctl, conf, api, doc, cb, i, exc, record=True):
 
 
 def crash_case(ctx, case, record=True):
-    ctx.count("evaluations")
     ctx.current = case
     conf, api, doc = case["conf"], case["api"], case["doc"]
     md, ctl = build(conf)
     all_errs = []
     for (cb, i, exc) in case["points"]:
+        ctx.count("evaluations")
         errs, reached = crash(ctx, md, ctl, conf, api, doc, cb, i, exc, record)
         if reached:
             ctx.nontrivial(doc, api, conf, cb, i, exc)
@@ -213,8 +213,17 @@ def reset_case(ctx, case):
     ctx.count("evaluations")
     ctx.current = case
     md, ctl = build(case["conf"])
+    pre = case.get("pre") or []
+    if pre:
+        # state on entry in which a whole chain has no active rule (a chain may legitimately be empty: inline and inline2)
+        md.disable(pre, True)
+        tw, _ = build(case["conf"])
+        tw.disable(pre, True)
+        want_probe = probe(tw)
+        ctx.count("reset_rules.entry_with_empty_chain")
+    else:
+        want_probe = twin_of(case["conf"])[1]
     entry = md.get_active_rules()
-    want_probe = twin_of(case["conf"])[1]
     problems = []
 
     def body(script, depth):
@@ -381,7 +390,12 @@ def run(ctx):
     ctx.info["exhaustive_part"] = "thorough: every (callback, invocation index, exception type) of every sampled (document, conf, api); quick: all invocations for calls with <=150 invocations, stride otherwise, one exception type per point"
     for k in range(ctx.scale(12000, 300000)):
         script = gen_script(rng)
-        reset_case(ctx, {"kind": "reset", "conf": rng.choice(["cmx", "jst", "zero"]), "script": script})
+        pre = []
+        if rng.random() < 0.3:
+            inl2 = ["balance_pairs", "fragments_join", "emphasis", "strikethrough", "p_inl2"]
+            inl = ["text", "linkify", "newline", "escape", "backticks", "strikethrough", "emphasis", "link", "image", "autolink", "html_inline", "entity", "p_inl_first", "p_inl_last"]
+            pre = rng.choice([inl2, inl, inl + inl2])
+        reset_case(ctx, {"kind": "reset", "conf": rng.choice(["cmx", "jst", "zero"]), "script": script, "pre": pre})
         if k % 1999 == 0:
             ctx.sample({"kind": "reset", "script": script})
 
